@@ -268,11 +268,16 @@ Fixpoint fis (is_module : bool) (s : fstmt) {struct s} : list fstmt :=
   then expanded ++ [FEmit E_after_module_stmt n (Some (RExp (XLoadSaved n))) None]
   else expanded.
 
-Definition finstr_module (body : list fstmt) : list fstmt :=
+Definition finstr_module0 (body : list fstmt) : list fstmt :=
   (if sub c E_init_module then [FEmit E_init_module 0 None None] else [])
   ++ flat_map (fis true) body
   ++ (if sub c E_exit_module then [FEmit E_exit_module 0 None None] else []).
 End Instr.
+
+(* a module docstring stays as written and first (as in FragSem.tdoc / trest) *)
+Definition fdoc (body : list fstmt) : list fstmt := match body with d :: _ => if is_docstring d then [d] else [] | [] => [] end.
+Definition frest (body : list fstmt) : list fstmt := match body with d :: rest => if is_docstring d then rest else body | [] => [] end.
+Definition finstr_module (c : rcfg) (ge : bool) (body : list fstmt) : list fstmt := fdoc body ++ finstr_module0 c ge (frest body).
 
 (* ---------------------------------------------------------------- the definitions of a program, scoping *)
 Fixpoint find_def (n : N) (s : fstmt) {struct s} : option (list N * list fstmt) :=
@@ -602,8 +607,9 @@ Fixpoint fcallr (ftab : N -> option (list N * list fstmt)) (d : nat) {struct d} 
   | S d' => do_callr ftab (fcallr ftab d')
   end.
 
-Definition fref_module (d : nat) (body : list fstmt) (r : env) : frres :=
+Definition fref_module0 (d : nat) (body : list fstmt) (r : env) : frres :=
   let a := fref_l (fcallr (defs_of body) d) false true None (fun _ => None) body r [(E_init_module, 0, Some VNone)] in
   {| fr_exc := fr_exc a; fr_env := fr_env a;
      fr_log := (E_init_module, 0, Some VNone) :: fr_log a ++ match fr_exc a with None => [(E_exit_module, 0, Some VNone)] | Some _ => [] end |}.
+Definition fref_module (d : nat) (body : list fstmt) (r : env) : frres := fref_module0 d (frest body) r.
 End Sem.
